@@ -411,7 +411,10 @@ def run_impl(inp):
         except Exception:
             pass
     # a line-level injection that lands inside a context manager's exit sequence can leave the
-    # process-global grad mode off; that is an artefact of the injector, not model state
+    # process-global grad mode off; that is an artefact of the injector, not model state.  After any
+    # other kind of failure (or a completed call) a disabled grad mode means ordinary gradients can
+    # no longer be computed as before the call.
+    grad_left_off = (not torch.is_grad_enabled()) and kind != 'line'
     torch.set_grad_enabled(True)
     res['hooks_left'] = hook_count(model) != hook_count(pristine)
     changed = not same_state(model, pristine)
@@ -426,6 +429,9 @@ def run_impl(inp):
     if any(a and not b for a, b in zip(mode_flags(model), flags0)):
         changed = True
         res['mode_flipped_to_training'] = True
+    if grad_left_off:
+        changed = True
+        res['grad_mode_left_disabled'] = True
     res['changed'] = changed
     return res
 
